@@ -2,6 +2,8 @@
 success/error exit classification, must-pass."""
 from .ir import callee_path, op_place
 
+ERR_ENUMS = ("errors::ErrorCode", "pinocchio::errors::WhirlpoolErrorCode", "anchor_lang::error::ErrorCode", "pinocchio::errors::AnchorErrorCode")
+
 DIVERGING = (
     "core::panicking::", "std::rt::begin_panic", "core::option::unwrap_failed",
     "core::result::unwrap_failed", "core::option::expect_failed", "std::process::abort",
@@ -149,7 +151,7 @@ def fail_only(fn, block):
     return not success_reach(fn, block)
 
 
-def error_codes_from(fn, block, enum_suffixes=("errors::ErrorCode", "pinocchio::errors::WhirlpoolErrorCode")):
+def error_codes_from(fn, block, enum_suffixes=ERR_ENUMS):
     """Error-enum variants constructed in the fail-only region starting at `block`.
     Stops at blocks that can still succeed."""
     seen = set()
@@ -182,7 +184,7 @@ def _walk_consts(obj, out):
             _walk_consts(v, out)
 
 
-def block_error_codes(fn, b, enum_suffixes=("errors::ErrorCode", "pinocchio::errors::WhirlpoolErrorCode")):
+def block_error_codes(fn, b, enum_suffixes=ERR_ENUMS):
     bb = fn.blocks[b]
     found = []
     _walk_consts(bb["s"], found)
